@@ -397,3 +397,42 @@ def walls_given_by_ideal_points(tier, rng, rep):
             rep.case(key=(t, shape), nontrivial=True, sample=inp if (t, shape) == (0, ()) else None)
             if len(rep.failures) >= 3:
                 return
+
+
+@bounded(P, "walls_far_from_the_origin", functions=[H + "Hyperplane.__init__", H + "Hyperplane._compute_ideal_basis", H + "spacelike_to", H + "Subspace.reflection_across", "geometry_tools/utils/numerical.py:svd_kernel"],
+         note="hyperplanes at hyperbolic distance up to 11 from the origin (unit normal with time coordinate sinh a): the hyperplane is constructed, its reflection is an involutive isometry "
+              "negating the normal and fixing wall points computed independently; tolerances follow the size e^(2a) of the matrix entries")
+def walls_far_from_the_origin(tier, rng, rep):
+    N = 90 if tier == 'thorough' else 24
+    rep.rule = "n = 2, 3, 4; a in {0, 2, 5, 8, 9.5, 10, 10.5, 11} (cycled) and random in [0, 11]; random direction; single walls and composites mixing near and far walls"
+    rep.bound = f"{N} walls"
+    grid = [0.0, 2.0, 5.0, 8.0, 9.5, 10.0, 10.5, 11.0]
+    for t in range(N):
+        n = 2 + t % 3
+        J = spec.J(n + 1)
+        a = grid[t % len(grid)] if t % 3 else float(rng.uniform(0, 11))
+        u = rng.normal(size=n); u /= np.linalg.norm(u)
+        v = np.concatenate([[np.sinh(a)], np.cosh(a) * u]) * float(rng.choice([1.0, -2.0, 0.5]))
+        inp = {"n": n, "distance_from_origin": a, "normal": v.tolist()}
+
+        def body():
+            W = h.Hyperplane(v.copy())
+            M = np.asarray(W.reflection_across().proj_data, dtype=float)
+            sz = 1 + np.max(np.abs(M))
+            if not np.all(np.abs(M @ J @ M.T - J) <= 1e-7 * sz ** 2):
+                rep.fail("reflection_is_an_isometry", f"distance {a}: max |M J M^T - J| = {np.max(np.abs(M @ J @ M.T - J))} (entries of size {sz:.3g})", inp); return
+            if not np.all(np.abs(M @ M - np.identity(n + 1)) <= 1e-7 * sz ** 2):
+                rep.fail("reflection_involutive", f"distance {a}", inp); return
+            vn = v / np.sqrt(v @ J @ v)
+            if not np.all(np.abs(vn @ M + vn) <= 1e-7 * sz * (1 + np.max(np.abs(vn)))):
+                rep.fail("reflection_negates_normal", f"distance {a}", inp); return
+            # a point of the wall, independently: x = cosh(a) e0 + sinh(a) u is the foot of the perpendicular from the origin
+            x = np.concatenate([[np.cosh(a)], np.sinh(a) * u])
+            if abs(x @ J @ v) <= 1e-6 * np.max(np.abs(x)) * np.max(np.abs(v)) and not np.all(np.abs(x @ M - x) <= 1e-6 * sz * np.max(np.abs(x))):
+                rep.fail("reflection_fixes_the_wall", f"distance {a}: the foot of the perpendicular from the origin is moved", inp); return
+            if np.trace(M) < n - 1 - 1e-6 * sz or np.trace(M) > n - 1 + 1e-6 * sz:
+                rep.fail("reflection_orientation_reversing", f"distance {a}: trace {np.trace(M)} (a reflection of R^(n,1) has trace n - 1)", inp)
+        rep.attempt("reflection_roundtrip_runs", inp, body)
+        rep.case(key=(t,), nontrivial=a > 9, sample=inp if t == 1 else None)
+        if len(rep.failures) >= 3:
+            return
